@@ -36,7 +36,7 @@ func cfail(format string, a ...any) {
 }
 
 var specialFuncs = map[string]bool{"old": true, "implies": true, "forall": true, "exists": true, "elems": true, "fresh": true,
-	"sliceIs": true, "ite": true, "unchanged": true, "sameArray": true, "mapof": true, "allocated": true, "iff": true, "has": true, "clock": true, "same": true, "locked": true, "typed": true}
+	"sliceIs": true, "ite": true, "unchanged": true, "sameArray": true, "mapof": true, "allocated": true, "iff": true, "has": true, "clock": true, "same": true, "locked": true, "typed": true, "liteContains": true}
 
 // freeIdents: identifiers in e that may refer to contract-level names.
 func freeIdents(e ast.Expr) map[string]bool {
@@ -178,6 +178,11 @@ func (fr *Frame) visibleNames(loop *Loop) map[string]types.Type {
 	}
 	if loop != nil {
 		m["loopiter"] = types.Typ[types.Int] // copy index of an unrolled loop
+		for _, ins := range loop.Header.Instrs {
+			if phi, ok := ins.(*ssa.Phi); ok && phi.Comment == "rangeindex" {
+				m["rangeindex"] = types.Typ[types.Int] // elements of the ranged slice already visited
+			}
+		}
 	}
 	for k, t := range fr.oldTypes {
 		m[k] = t
@@ -324,6 +329,17 @@ func (fr *Frame) resolveName(n string, st *State, loop *Loop, extra map[string]*
 	}
 	if t, ok := st.ghost[n]; ok {
 		return t
+	}
+	if loop != nil && n == "rangeindex" {
+		// `rangeindex` in a clause of a `for ... range slice` loop: the number of elements already visited (the
+		// index of the element the next iteration visits), i.e. the compiler's hidden index + 1
+		for _, ins := range loop.Header.Instrs {
+			if phi, ok := ins.(*ssa.Phi); ok && phi.Comment == "rangeindex" {
+				if pv, ok := st.regs[phi]; ok {
+					return fr.x.c.BVBin("bvadd", pv, fr.x.c.BV(1, 64))
+				}
+			}
+		}
 	}
 	if loop != nil {
 		if lv := fr.localVar(n, loop); lv != nil {
@@ -1004,6 +1020,10 @@ func (env *Env) evalSpecial(name string, e *ast.CallExpr) *Term {
 			}
 		}
 		return c.True()
+	case "liteContains":
+		// liteContains(t, ip): membership of ip in the *bart.Lite t (the same uninterpreted function the model of
+		// Lite.Contains uses: the receiver of that method is the embedded table, field 0 of Lite)
+		return c.UF("bart_lite_contains", SBool, c.RSub(env.eval(e.Args[0]), 0), env.eval(e.Args[1]))
 	case "locked":
 		// locked(&mu): the sync.Mutex / sync.RWMutex at that address is held (set by Lock, cleared by Unlock)
 		return c.Select(x.memOf(env.st, SBool), env.eval(e.Args[0]))
